@@ -17,7 +17,7 @@ from ..report import short
 from ..snapshot import snapshot, first_diff
 
 glom = env.bind()
-from glom import T, SKIP, STOP, Iter, Invoke, Check, glom as G  # noqa: E402
+from glom import T, S, SKIP, STOP, Iter, Invoke, Check, glom as G  # noqa: E402
 
 META = {
     'level': 'exploration',
@@ -421,6 +421,68 @@ def independent_stage_checks(col, rng):
                               % (short(spec), items, got, short(want)), None)
 
 
+def _pull_all_keeping_errors(it, limit=50):
+    """what a consumer sees that catches an item-level error and keeps pulling"""
+    out = []
+    for _ in range(limit):
+        try:
+            out.append(next(it))
+        except StopIteration:
+            break
+        except Exception as e:
+            out.append('ERR:' + type(e).__name__)
+    return out
+
+
+def stages_after_an_item_level_error_and_keys_in_context(col):
+    """(1) a map / filter stage is the builtin map / filter over its source: when the function raises for one item, a consumer that
+    catches the error and pulls again gets the following items - on finite and infinite sources.  (2) first(key): the key is a spec
+    evaluated in the context of the running call - it sees scope= values, S(..) bindings made before, and the registry of the Glommer
+    the call goes through"""
+    import itertools as it
+    from glom import Glommer, Call, Coalesce
+    from glom.streaming import First
+    div = lambda x: 10 // x
+    odd_or_boom = lambda x: (x % 2 == 1) if x != 4 else 1 // 0
+    stages = [('map', lambda i: i.map(div), lambda src: map(div, src)), ('filter', lambda i: i.filter(odd_or_boom), lambda src: filter(odd_or_boom, src)),
+              ('map then filter', lambda i: i.map(div).filter(lambda v: v != 5), lambda src: filter(lambda v: v != 5, map(div, src))),
+              ('filter then map', lambda i: i.filter(odd_or_boom).map(div), lambda src: map(div, filter(odd_or_boom, src))),
+              ('map then limit', lambda i: i.map(div).limit(4), lambda src: it.islice(map(div, src), 4))]
+    for sname, mk_src in (('finite', lambda: [1, 2, 0, 5, 4, 3, 0, 7]), ('infinite', lambda: it.cycle([1, 2, 0, 5, 4, 3]))):
+        for name, build, ref in stages:
+            got = call(lambda: _pull_all_keeping_errors(iter(G(mk_src(), build(Iter()))), 12))
+            want = _pull_all_keeping_errors(iter(ref(iter(mk_src()))), 12)
+            col.case(('stage-after-item-error', sname, name), True)
+            col.count('independent_checks')
+            if not (got.ok and got.value == want):
+                col.violation('C17/stage-ends-after-an-item-level-error:' + name.split(' ')[0], 'Iter().%s over a %s source, consumer keeps pulling after an error: %r ; '
+                              'the map / filter composition gives %r' % (name, sname, got, want), None)
+
+    class Rec:
+        __slots__ = ('flag', 'name')
+
+        def __init__(self, name, flag):
+            self.name, self.flag = name, flag
+    g = Glommer()
+    g.register(Rec, get=lambda o, k: getattr(o, k) if k != 'flag' else not o.flag)       # this Glommer reads flags inverted
+    above = Call(lambda a, b: a > b, args=(T, S.threshold))
+    ctx_cases = [
+        ('scope= value', lambda: G([3, 12, 20], Iter().first(above), scope={'threshold': 5}), 12),
+        ('S() binding made before', lambda: G({'lim': 15, 'xs': [3, 12, 20]}, (S(threshold=T['lim']), 'xs', Iter().first(above))), 20),
+        ('First(key) with a scope= value', lambda: G([3, 12, 20], First(above), scope={'threshold': 15}), 20),
+        ('key with a fallback when unbound', lambda: G([3, 12], Iter().first(Call(lambda a, b: a > b, args=(T, Coalesce(S.threshold, default=0)))), scope={'threshold': 5}), 12),
+        ('Glommer registry in the key', lambda: g.glom([Rec('a', True), Rec('b', False)], (Iter().first('flag'), 'name')), 'b'),
+        ('plain glom, same targets', lambda: G([Rec('a', True), Rec('b', False)], (Iter().first(T.flag), T.name)), 'a'),
+        ('no item satisfies: default', lambda: G([1, 2], Iter().first(above, default='none'), scope={'threshold': 5}), 'none'),
+    ]
+    for desc, prog, want in ctx_cases:
+        got = call(prog)
+        col.case(('first-key-in-context', desc), True)
+        col.count('independent_checks')
+        if not (got.ok and got.value == want):
+            col.violation('C17/first-key-not-evaluated-in-the-context-of-the-call', '%s: %r, expected %r' % (desc, got, want), None)
+
+
 def builder_case(col, rng):
     """derive specs from a prefix, then check the prefix is untouched"""
     ops = [('map', lambda it: it.map(lambda x: x + 1)), ('filter', lambda it: it.filter(lambda x: x % 2)),
@@ -495,6 +557,7 @@ def run(ctx):
     col.require('builder_prefixes_checked', 100)
     if ctx.shard == 0:
         independent_stage_checks(col, rng)
+        stages_after_an_item_level_error_and_keys_in_context(col)
         markers_returned_by_later_stages_are_values(col)
         split_separators_of_every_kind(col)
     for i in range(ctx.n(8000, 40000)):
